@@ -216,6 +216,19 @@ func saveFailure(v *Violation, kind string, c interface{}) {
 	_ = os.WriteFile(filepath.Join(dir, v.Prop+".json"), b, 0o644)
 }
 
+// saveCurrent records the case about to run (used where a failure kills the process).
+func saveCurrent(prop, kind string, c interface{}) {
+	dir := os.Getenv("VERIF_FAILDIR")
+	if dir == "" {
+		return
+	}
+	_ = os.MkdirAll(dir, 0o755)
+	b, err := json.Marshal(failFile{Property: prop, Signature: prop + ":data-race", Detail: "case in flight when the race detector halted the process", Kind: kind, Case: c})
+	if err == nil {
+		_ = os.WriteFile(filepath.Join(dir, prop+"-current.json"), b, 0o644)
+	}
+}
+
 type fataler interface {
 	Fatalf(format string, args ...interface{})
 	Logf(format string, args ...interface{})
